@@ -86,7 +86,7 @@ PROPS = {
     "C20": dict(module="ZkElGamal.Props.C20", ns="Zk.Props.C20", trusted=[DALEK, MERLIN], assumptions=[DALEK, MERLIN]),
     "C06": dict(module="ZkElGamal.Props.C06", ns="Zk.Props.C06", trusted=[DALEK, MERLIN],
                 assumptions=[DALEK, MERLIN, "the quantifier 'across every future revision' is met by pinning: kat/v1.ops and Model/LabelsV1.lean are committed and never regenerated by a check",
-                             "the executable Lean model is the independent implementation; its own prover/verifier consistency is theorem C05.*.complete for four protocols and tested for the rest"]),
+                             "the executable Lean model is the independent implementation; its own prover/verifier consistency is theorem C05.*.complete for the nine sigma instructions and tested for the range proofs"]),
     "C07": dict(module="ZkElGamal.Props.C07", ns="Zk.Props.C07", trusted=[DALEK, MERLIN],
                 assumptions=[ROM, DALEK, MERLIN, "instances are sampled (bit positions are exhaustive per instance in the thorough tier; field-boundary bytes plus one seeded bit per byte in quick)"]),
     "C08": dict(module="ZkElGamal.Props.C08", ns="Zk.Props.C08", trusted=[DALEK],
@@ -153,10 +153,10 @@ MANIFEST_TEXT = {
         note="Trusted: Lean kernel; dalek/merlin/sha3 modelled. Not proved: Bulletproofs extractor and prover completeness for arbitrary splits (model prover validated against the Rust verifier)."),
     "C05": dict(
         technique="Lean 4 proof (constructor success, context = statement encoding, byte-level completeness prover->verifier) + differential correspondence of constructors and cross-verification (Rust-proved and model-proved, both verifiers)",
-        text="Theorems new_ok / new_context / complete for zero-ciphertext, pubkey validity, ct-ct and ct-commitment equality at the byte level (for all keys, amounts, openings, nonces with non-identity masking commitments); "
+        text="Theorems new_ok / new_context / complete for zero-ciphertext, pubkey validity, ct-ct and ct-commitment equality, grouped validity 2/3 handles, batched grouped validity 2/3 handles, and percentage-with-cap (below the cap and at the cap) at the byte level (for all keys, amounts, openings, nonces with non-identity masking commitments); "
              "constructor acceptance conditions for all nine sigma constructors incl. both cap branches (C20 theorems). Correspondence for all nine sigma instructions: boundary amounts, identity auditor key, identity second ciphertext, "
              "fees below and exactly at the cap: constructor outcome and context bytes equal the model's, and every produced proof (Rust prover and model prover) verifies in both verifiers. "
-             "Finding F2 (capped branch unreachable) was exhibited by this check and repaired by a fix: commit. Range instructions: constructor outcome/context and cross-verification in the correspondence (all admissible splits sampled, boundary amounts). PARTIAL: byte-level completeness theorems for the validity/cap/range instructions are not proved (differential only).",
+             "Finding F2 (capped branch unreachable) was exhibited by this check and repaired by a fix: commit. Range instructions: constructor outcome/context and cross-verification in the correspondence (all admissible splits sampled, boundary amounts). PARTIAL: byte-level completeness theorems for the range instructions are not proved (differential only).",
         note=SIGMA_NOTE + " OsRng is external (nonces are explicit in the model)."),
     "C18": dict(
         technique="Lean 4 proof (attribute/Debug table regenerated from source by `decide +kernel`; invariant by induction over create/clone/drop sequences; Debug non-interference) + storage inspection after drop and search of Debug output",
